@@ -204,6 +204,14 @@ class Kernel:
         le = self.listexpr(t)
         if le is not None:
             return le, []
+        if t[0] in ("call", "mcall") and (t[1] in ("itertools.chain", "chain") if t[0] == "call" else (t[2] == "chain" and t[1] == ("v", "itertools"))):
+            parts = t[2] if t[0] == "call" else t[3]
+            if len(parts) == 2:
+                for a, b in ((parts[0], parts[1]), (parts[1], parts[0])):
+                    if a[0] in ("list", "tup") and all(is_const(x) or not mentions(x, lambda y: y[0] == "elem") for x in a[1]):
+                        le = self.listexpr(b)
+                        if le is not None:
+                            return le, list(a[1])
         if t[0] == "cat":
             for a, b in ((t[1], t[2]), (t[2], t[1])):
                 if a[0] == "list" and all(is_const(x) or not mentions(x, lambda y: y[0] == "elem") for x in a[1]):
@@ -331,6 +339,27 @@ class Kernel:
             k = self._from_fold(l2, v, fo)
             k.init = ("first",)
             k.first_filter = k.filter
+            return k
+        mapped = self.listexpr(loop.source)
+        if mapped is not None and mapped[2] != ("e",) and fo.kind in ("SUM", "EXT"):
+            # a fold over a list of computed values [g(e) for e in S if F]: rewritten as the fold of g over S (filter F)
+            base, F0, E0, w0 = mapped
+            canon0 = self.canon
+
+            class _Rebased:
+                pass
+            saved = self.canon
+            self.canon = lambda t, lid, _c=canon0, _E=E0: self._rebase(_c(t, lid), _E) if lid == loop.id else _c(t, lid)
+            try:
+                import copy as _copy
+                l2 = _copy.copy(loop)
+                l2.source, l2.whole = base, loop.whole and w0
+                k = self._from_fold(l2, v, fo)
+            finally:
+                self.canon = saved
+            k.filter = simp(("and", (F0, k.filter)))
+            if getattr(k, "first_filter", None) is not None:
+                k.first_filter = k.filter
             return k
         k = KFold(kind=fo.kind, source=self._src(loop), filter=self.canon(loop.filter, loop.id), whole=loop.whole,
                   has_break=loop.has_break, has_return=loop.has_return, loop=loop, var=v)
